@@ -132,7 +132,41 @@ def check(run):
             run.fail('%s over the types %s and %s is %s in one order and %s in the other (%s)' % (form, ta, tb, 'accepted' if ok else 'rejected', 'accepted' if ok2 else 'rejected', (errs or errs2)[0] if (errs or errs2) else ''),
                      dict(form=form, types=[ta, tb], model=model, model_swapped=model2), shape='asym-spelling:%s' % form)
     run.cov['spelling_pairs_checked'] = nspell
-    run.cov.update(evaluations=len(cases) + len(refcases) + len(smodels), distinct_nontrivial=len(verdict), traces_validated_against_impl=len(cases), exhaustive=True,
+    # ---- arrays whose index types differ in kind (integer range, scalar set, another scalar set of the same size) or in bounds ----
+    idx = ['[3]', '[int[0,2]]', '[S]', '[S2]', '[int[1,3]]', '[4]', '[N3]']
+    idecl = 'typedef scalar[3] S; typedef scalar[3] S2; const int N3 = 3; bool cnd;\n'
+    imodels = []
+    for a in idx:
+        for b in idx:
+            for form in ('array-eq', 'array-neq', 'array-iif', 'ref-param', 'array-2d-eq'):
+                if form == 'ref-param':
+                    d = 'int va%s; int vb%s;\nvoid g(int &p%s) { }\n' % (a, b, a); body = 'g(vb);'
+                elif form == 'array-2d-eq':
+                    d = 'int va[2]%s; int vb[2]%s;\n' % (a, b); body = 'cnd = va == vb;'
+                else:
+                    d = 'int va%s; int vb%s;\n' % (a, b)
+                    body = {'array-eq': 'cnd = va == vb;', 'array-neq': 'cnd = va != vb;', 'array-iif': 'va = cnd ? va : vb;'}[form]
+                imodels.append((a, b, form, idecl + d + 'void h() { %s }\nprocess P() { state A; init A; }\nsystem P;\n' % body))
+    j = vlib.Job()
+    for k, m in enumerate(imodels):
+        j.case('i%d' % k, fork=True).model('xta', m[3]).dump('errors').end()
+    rr = vlib.run_jobs(j)
+    iacc = {}
+    for k, (a, b, form, model) in enumerate(imodels):
+        c = rr['i%d' % k]
+        errs = [l.split('msg="')[1].split('"')[0] for l in c['cmds'][1][2] if l.startswith('error')] if len(c['cmds']) > 1 else ['?']
+        iacc[(a, b, form)] = (not errs, errs[:1], model)
+    nidx = 0
+    for (a, b, form), (ok, errs, model) in iacc.items():
+        ok2, errs2, model2 = iacc[(b, a, form)]
+        nidx += 1
+        if ok != ok2 and a < b:
+            run.fail('%s over arrays indexed by %s and %s is %s in one order and %s in the other (%s)' % (form, a, b, 'accepted' if ok else 'rejected', 'accepted' if ok2 else 'rejected', (errs or errs2)[0] if (errs or errs2) else ''),
+                     dict(form=form, index_types=[a, b], model=model, model_swapped=model2), shape='asym-index:%s' % form)
+        if a == b and not ok:
+            run.fail('%s over two arrays with the same index type %s is rejected (%s)' % (form, a, errs[0] if errs else ''), dict(form=form, index_type=a, model=model), shape='same-index-rejected:%s' % form)
+    run.cov['index_type_pairs_checked'] = nidx
+    run.cov.update(evaluations=len(cases) + len(refcases) + len(smodels) + len(imodels), distinct_nontrivial=len(verdict), traces_validated_against_impl=len(cases), exhaustive=True,
                    rule='exhaustive: every binary operator of the typing table x every ordered pair of the %d realised operand classes (int, bounded int, bool, double, clock, clock difference, rate, invariant, guard, '
                         'constraint, two struct types, two array types, two scalar sets, three channel kinds, void), and inline-if over 5 condition classes x all branch pairs: '
                         'implementation class vs extracted Coq table; then both operand orders compared on the implementation; plus reference/const parameter x argument type matrix' % len(classes),
